@@ -34,6 +34,8 @@ impl VarOrder {
         ensures
             r.wf(), r.n() == order.len(),
             forall|j: int| 0 <= j < order.len() ==> r.pos(#[trigger] order@[j]) == j,
+            // and conversely: the label at a label's position is that label
+            forall|v: VarLabel| r.has(v) ==> 0 <= #[trigger] r.pos(v) < order.len() && order@[r.pos(v)] == v,
 //%% @entry
         proof { reveal(VarOrder::wf); }
 //%% @loop 1 /^for i in 0\.\.order\.len\(\)$/
@@ -43,6 +45,27 @@ impl VarOrder {
                 forall|j: int, k: int| 0 <= j < k < order.len() ==> (#[trigger] order@[j]).0 != (#[trigger] order@[k]).0,
                 forall|j: int| #![trigger pos_to_var[j]] #![trigger order@[j]] 0 <= j < i ==> pos_to_var[j] == order@[j].0 && v[order@[j].0 as int] == j,
                 forall|x: int| 0 <= x < order.len() ==> (covered_upto(order@, x, i as int) ==> (#[trigger] v[x]) < i && pos_to_var[v[x] as int] == x),
+//%% end
+
+// R-map-collect: `(0..num_vars).map(|i| VarLabel::new(i as u64)).collect()` is replaced by the definition of map + collect into a
+// Vec (push the closure's value for every element of the range, in order); the closure body is the real text.
+//%% extract src/repr/var_order.rs :: impl VarOrder :: fn linear_order
+//%% @ret r
+//%% @rewrite 1 /\(0\.\.num_vars\)\.map\(\|i\| (.*?)\)\.collect\(\);/ => { let mut mc__out: Vec<VarLabel> = Vec::new(); for i in 0..num_vars { let mc__x = \1; mc__out.push(mc__x); } mc__out };
+//%% @spec
+        ensures
+            // the identity order: label v sits at level v
+            r.wf(), r.n() == num_vars,
+            forall|v: VarLabel| r.has(v) ==> r.pos(v) == v.0,
+//%% @entry
+        proof {
+            // a sequence that holds label x at index x covers every label below its length
+            assert forall|s: Seq<VarLabel>, x: int| #![trigger covered_upto(s, x, s.len() as int)] 0 <= x < s.len() && s[x].0 == x implies covered_upto(s, x, s.len() as int) by { }
+        }
+//%% @loop 1 /^for i in 0\.\.num_vars$/
+            invariant
+                mc__out@.len() == i,
+                forall|x: int| 0 <= x < i ==> (#[trigger] mc__out@[x]).0 == x,
 //%% end
 
 //%% extract src/repr/var_order.rs :: impl VarOrder :: fn num_vars
